@@ -152,7 +152,7 @@ def design(ctx):
     depth = {"all": 3, "align": 5 if q else 6, "label": 5 if q else 6}
     behs = []
     with ThreadPoolExecutor(max_workers=8) as ex:
-        fsim = simulate_start(ctx, ex, 300 if q else 4000)
+        fsim = simulate_start(ctx, ex, 300 if q else 8000)
         fd = {}
         for conf in CONFIGS:
             cfg = mc_cfg(ctx, conf, conf, MaxOps=depth[conf],
@@ -339,14 +339,14 @@ def run(ctx):
     tr_s = ctx.path("trace_scripts.ndjson")
     vlib.record_trace(ctx, bdir, "dataemit", ["script", sp, tr_s], tr_s, timeout=900, env={"VERIF_SEED": ctx.seed})
     tr_r = ctx.path("trace_random.ndjson")
-    nexec, steps, ngrow = (400, 40, 6) if q else (6000, 60, 40)
+    nexec, steps, ngrow = (400, 40, 6) if q else (15000, 60, 120)
     vlib.record_trace(ctx, bdir, "dataemit", ["random", tr_r, nexec, steps, ngrow], tr_r, timeout=1200, env={"VERIF_SEED": ctx.seed})
     tr_w = ctx.path("trace_sweep.ndjson")
     vlib.record_trace(ctx, bdir, "dataemit", ["sweep", tr_w, 1 if q else 2], tr_w, timeout=900, env={"VERIF_SEED": ctx.seed})
     total = 0
     with ThreadPoolExecutor(max_workers=3) as ex:
         fs = [ex.submit(validate, ctx, tag, path, k) for tag, path, k in
-              (("scripts", tr_s, 2 if q else 4), ("random", tr_r, 3 if q else 6), ("sweep", tr_w, 3 if q else 4))]
+              (("scripts", tr_s, 2 if q else 4), ("random", tr_r, 3 if q else 12), ("sweep", tr_w, 3 if q else 4))]
         for f in fs:
             total += f.result()
     ctx.evaluations = total
